@@ -259,7 +259,7 @@ def _cli_chunk(args):
     return nans, fails
 
 def search(ctx, deep):
-    n = (12 if ctx.tier == "quick" else 60) * (3 if deep else 1)
+    n = (12 if ctx.tier == "quick" else 200) * (3 if deep else 1)
     nans = 0
     fails = []
     for c, f in par.pmap(_cli_chunk, [(ctx.seed * 107 + j, n) for j in range(ctx.jobs)], ctx.jobs):
